@@ -119,6 +119,9 @@ const FUNCS: &[(&str, &str, &str)] = &[
     ("normalizedFunctionCall", "src/mir/lower.rs", "normalized_function_call"),
     ("functionCall", "src/mir/lower.rs", "function_call"),
     ("shortcircuitBinop", "src/mir/lower.rs", "shortcircuit_binop"),
+    ("desugaredBinop", "src/mir/lower.rs", "desugared_binop"),
+    ("binopStr", "src/mir/lower.rs", "binop_str"),
+    ("callRuntime", "src/mir/lower.rs", "call_runtime"),
     ("compoundAssign", "src/mir/lower.rs", "compound_assign"),
     ("assign", "src/mir/lower.rs", "assign"),
     ("ifElse", "src/mir/lower.rs", "if_else"),
